@@ -11,7 +11,9 @@ import (
 	"verif/sim/core"
 	"verif/sim/env"
 	"verif/sim/fam"
+	"verif/sim/sched"
 	"verif/sim/simdrv"
+	"verif/sim/simrt"
 )
 
 // HookFault makes the Occ-th (0-based) invocation of Model.Hook return an error.
@@ -68,6 +70,7 @@ func (h HookEvent) RecPtr() interface{} { return h.rec }
 
 // SingleRun is everything observed around one operation on a fresh database.
 type SingleRun struct {
+	Hung      []string // the operation never returned: the goroutines blocked inside gorm
 	Res       Result
 	D0, D1    string
 	DumpErr   error
@@ -211,6 +214,17 @@ func RunSingle(o env.Options, f *Fault, action HookAction, do func(e *env.Env) R
 	return RunMulti(o, []*Fault{f}, action, do)
 }
 
+// HangTimeout is the real time one operation may take before the run is ended.
+var HangTimeout = 10 * time.Second
+
+// HungViolation is the verdict for a run whose operation never returned.
+func (sr *SingleRun) HungViolation() *core.Violation {
+	if len(sr.Hung) == 0 {
+		return nil
+	}
+	return &core.Violation{Class: "deadlock", Key: "blocked_in_gorm|" + sr.Hung[0], Detail: fmt.Sprintf("the operation never returned (single caller, nothing else running): blocked inside gorm on a lock or channel: %v", sr.Hung)}
+}
+
 // RunMulti is RunSingle with any number of planned faults.
 func RunMulti(o env.Options, fs []*Fault, action HookAction, do func(e *env.Env) Result) (*SingleRun, error) {
 	e, err := env.Open(o)
@@ -260,8 +274,19 @@ func RunMulti(o env.Options, fs []*Fault, action HookAction, do func(e *env.Env)
 		sr.Hooks = append(sr.Hooks, ev)
 		return herr
 	}
-	func() {
-		defer func() { fam.Sink = nil }()
+	// the operation runs in a goroutine of its own, watched in real time: code that
+	// waits for a lock nobody will release must end the run with a verdict, not hang the worker
+	done := make(chan struct{})
+	prevCur := e.Drv.Cur
+	go func() {
+		defer close(done)
+		me := simrt.Goid()
+		e.Drv.Cur = func() int { // this goroutine is the task: its driver calls are the operation's
+			if simrt.Goid() == me {
+				return 0
+			}
+			return prevCur()
+		}
 		// the caller of the operation recovers panics, like a request handler's middleware
 		defer func() {
 			if pv := recover(); pv != nil {
@@ -275,6 +300,19 @@ func RunMulti(o env.Options, fs []*Fault, action HookAction, do func(e *env.Env)
 		}()
 		sr.Res = do(e)
 	}()
+	select {
+	case <-done:
+		e.Drv.Cur = prevCur
+		fam.Sink = nil
+	case <-time.After(HangTimeout):
+		e.Drv.Passive = true
+		hung := sched.BlockedInGorm()
+		fam.Sink = func(fam.HookCall) error { return nil }
+		if len(hung) == 0 {
+			return nil, fmt.Errorf("the operation did not return within %v and no goroutine is blocked on a lock or channel inside gorm", HangTimeout)
+		}
+		return &SingleRun{Hung: hung, D0: sr.D0, D1: sr.D0}, nil
+	}
 	sr.InUse = e.Pool.Stats().InUse
 	for i := 0; sr.InUse != 0 && i < 8000; i++ { // up to 4 s, only spent while something is still checked out
 		// database/sql's context watcher releases a cancelled transaction's connection asynchronously
